@@ -36,20 +36,21 @@ var pkgAlias = map[string]string{
 
 // Program is the type-checked program under analysis.
 type Program struct {
-	Repo      string
-	Fset      *token.FileSet
-	Pkgs      map[string]*packages.Package // by import path (repo packages only)
-	All       []*packages.Package          // roots
-	funcs     map[string]*FuncInfo         // by qualified name
-	byObj     map[*types.Func]*FuncInfo
-	fileOf    map[*ast.File]*packages.Package
-	parents   map[ast.Node]ast.Node // lazily built per file
-	pfiles    map[*ast.File]bool
-	Units     UnitStats
-	lits      map[*ast.FuncLit]*FuncInfo
-	eff       *Effects
-	deliv     map[*types.Func]bool
-	txnHelper map[*types.Func]bool
+	Repo          string
+	Fset          *token.FileSet
+	Pkgs          map[string]*packages.Package // by import path (repo packages only)
+	All           []*packages.Package          // roots
+	funcs         map[string]*FuncInfo         // by qualified name
+	byObj         map[*types.Func]*FuncInfo
+	fileOf        map[*ast.File]*packages.Package
+	parents       map[ast.Node]ast.Node // lazily built per file
+	pfiles        map[*ast.File]bool
+	Units         UnitStats
+	lits          map[*ast.FuncLit]*FuncInfo
+	eff           *Effects
+	deliv         map[*types.Func]bool
+	txnHelper     map[*types.Func]bool
+	txnHelperOuts map[*types.Func][]txnOutcome
 }
 
 type UnitStats struct {
